@@ -269,59 +269,63 @@ func checkErrProp(w *World, r *Report, tm *Terms, fns []*ssa.Function, rule stri
 	for _, fn := range fns {
 		for _, b := range fn.Blocks {
 			for _, in := range b.Instrs {
-				c, ok := in.(ssa.CallInstruction)
-				if !ok {
-					continue
-				}
-				if _, isDefer := in.(*ssa.Defer); isDefer {
-					continue
-				}
-				cc := c.Common()
-				if !lastResultIsError(cc) {
-					continue
-				}
-				name := shorten(callKey(cc))
-				if name == "" {
-					name = "dynamic call"
-				}
-				switch callKey(cc) {
-				case "fmt.Errorf", "errors.New", "cosmossdk.io/errors.Wrap", "cosmossdk.io/errors.Wrapf",
-					"google.golang.org/grpc/status.Error", "google.golang.org/grpc/status.Errorf":
-					continue // constructors: the value is the error being returned, not a failure to propagate
-				}
-				if callee := w.calleeBody(cc); callee != nil && !fs.mayFail(callee) {
-					continue // always-nil error (e.g. the BaseAuction setters): nothing to propagate
-				}
-				construct := fmt.Sprintf("%s:call:%s#%d", fnName(fn), name, occurrence(fn, c))
-				what := fmt.Sprintf("when %s fails in %s, every exit reached afterwards reports a failure", name, fnName(fn))
-				rl := &errPropRule{target: c}
-				x := NewExplorer(w, tm, rl)
-				var bad []string
-				for _, o := range x.Run(fn, 0) {
-					if o.St&stPassed == 0 || o.St&stInspected != 0 || o.Kind == ExitPanic {
-						continue
-					}
-					av, hasErr := o.ErrAV(fn)
-					if hasErr && av.K == avNonNil {
-						continue
-					}
-					if !hasErr {
-						bad = append(bad, fmt.Sprintf("%s returns normally (the function has no error result and does not panic)", w.instrPos(o.Instr)))
-					} else {
-						bad = append(bad, fmt.Sprintf("exit at %s can return a nil/unrelated error (%s)", w.instrPos(o.Instr), av))
-					}
-				}
-				sort.Strings(bad)
-				bad = dedupe(bad)
-				if len(bad) > 0 {
-					r.Fail(rule, construct, w.instrPos(in), what,
-						"the error is dropped or overwritten: "+strings.Join(bad, "; "))
-				} else {
-					r.Pass(rule, construct, w.instrPos(in), what)
+				if c, ok := in.(ssa.CallInstruction); ok {
+					errPropSite(w, r, tm, fs, fn, c, rule)
 				}
 			}
 		}
 	}
+}
+
+// errPropSite checks one call site; it returns false when the site creates no obligation.
+func errPropSite(w *World, r *Report, tm *Terms, fs *failSummary, fn *ssa.Function, c ssa.CallInstruction, rule string) bool {
+	if _, isDefer := c.(*ssa.Defer); isDefer {
+		return false
+	}
+	cc := c.Common()
+	if !lastResultIsError(cc) {
+		return false
+	}
+	name := shorten(callKey(cc))
+	if name == "" {
+		name = "dynamic call"
+	}
+	switch callKey(cc) {
+	case "fmt.Errorf", "errors.New", "cosmossdk.io/errors.Wrap", "cosmossdk.io/errors.Wrapf",
+		"google.golang.org/grpc/status.Error", "google.golang.org/grpc/status.Errorf":
+		return false // constructors: the value is the error being returned, not a failure to propagate
+	}
+	if callee := w.calleeBody(cc); callee != nil && !fs.mayFail(callee) {
+		return false // always-nil error (e.g. the BaseAuction setters): nothing to propagate
+	}
+	construct := fmt.Sprintf("%s:call:%s#%d", fnName(fn), name, occurrence(fn, c))
+	what := fmt.Sprintf("when %s fails in %s, every exit reached afterwards reports a failure", name, fnName(fn))
+	rl := &errPropRule{target: c}
+	x := NewExplorer(w, tm, rl)
+	var bad []string
+	for _, o := range x.Run(fn, 0) {
+		if o.St&stPassed == 0 || o.St&stInspected != 0 || o.Kind == ExitPanic {
+			continue
+		}
+		av, hasErr := o.ErrAV(fn)
+		if hasErr && av.K == avNonNil {
+			continue
+		}
+		if !hasErr {
+			bad = append(bad, fmt.Sprintf("%s returns normally (the function has no error result and does not panic)", w.instrPos(o.Instr)))
+		} else {
+			bad = append(bad, fmt.Sprintf("exit at %s can return a nil/unrelated error (%s)", w.instrPos(o.Instr), av))
+		}
+	}
+	sort.Strings(bad)
+	bad = dedupe(bad)
+	if len(bad) > 0 {
+		r.Fail(rule, construct, w.instrPos(c), what,
+			"the error is dropped or overwritten: "+strings.Join(bad, "; "))
+	} else {
+		r.Pass(rule, construct, w.instrPos(c), what)
+	}
+	return true
 }
 
 func dedupe(s []string) []string {
